@@ -151,7 +151,7 @@ class C19(Property):
     configs = ('A',)
     bytes_per_case = 160
     technique = "property-based differential testing against CPython's % operator (Hypothesis, template grammar, text and bytes) plus an independent reference splitter"
-    level_text = ('~60k (quick) / 3M (thorough) generated templates (literal text, %%, specifiers with nested-parenthesis keys, repeated flags, '
+    level_text = ('~200k (quick) / 3M (thorough) generated templates (literal text, %%, specifiers with nested-parenthesis keys, repeated flags, '
                   'width/precision incl. *, length modifiers, every conversion and unsupported ones, truncated specifiers) with generated arguments: '
                   'split must equal the reference splitter, the formatted result must equal Python\'s, rejections must agree incl. the index')
     level_note = ("trusts CPython 3.11's % operator and a 60-line reference splitter written from the language reference; '*' quantities and the "
@@ -162,7 +162,7 @@ class C19(Property):
             'distinct by case hash')
 
     def budget(self, tier):
-        return 60000 if tier == 'quick' else 3000000
+        return 200000 if tier == 'quick' else 3000000
 
     def explicit_cases(self, ctx):
         for t in ['%d', '%5d', '%-5d', '%05d', '%+d', '% d', '%#x', '%#o', '%.3d', '%05.3d', '%-05d', '%x', '%X', '%e', '%.0e', '%#.0e', '%g', '%G', '%f',
